@@ -86,4 +86,75 @@ def display (lower : Text → Text) (fs : Option (List Field)) (reverse : Bool) 
 def decorate (rows : List (List AttrVal)) : List Elt :=
   (List.range rows.length).zip (rows.map (·.map extract))
 
+/-! #### the sort attribute: `key[/function[/direction]]`, several of them separated by commas (make_sortfunctions) -/
+
+/-- `str.split(sep)` with a one-character separator -/
+def splitOn (sep : Char) : Text → List Text
+  | [] => [[]]
+  | c :: cs =>
+    if c = sep then [] :: splitOn sep cs
+    else match splitOn sep cs with
+      | [] => [[c]]
+      | p :: ps => (c :: p) :: ps
+
+/-- the comparison function an option names -/
+inductive FuncRef where
+  | cmp | nocase | strcoll | strcollNocase
+  | named (name : Text)      -- any other word: looked up in the namespace (`md.getitem(name, 0)`)
+  deriving Repr, DecidableEq
+
+/-- one parsed option of the sort attribute -/
+structure FieldSpec where
+  key : Text
+  func : FuncRef
+  desc : Bool
+  deriving Repr, DecidableEq
+
+def funcOfName (n : Text) : FuncRef :=
+  if n = "cmp".toList then .cmp
+  else if n = "nocase".toList then .nocase
+  else if n = "locale".toList ∨ n = "strcoll".toList then .strcoll
+  else if n = "locale_nocase".toList ∨ n = "strcoll_nocase".toList then .strcollNocase
+  else .named n
+
+/-- the direction word, case-insensitively; `none`: neither asc nor desc (SyntaxError) -/
+def descOfWord (lower : Text → Text) (w : Text) : Option Bool :=
+  if lower w = "asc".toList then some false
+  else if lower w = "desc".toList then some true
+  else none
+
+def mkSpec (lower : Text → Text) (k f d : Text) : Option FieldSpec :=
+  (descOfWord lower d).map fun desc => ⟨k, funcOfName f, desc⟩
+
+/-- one option split at its slashes: the function defaults to `cmp`, the direction to `asc`; more than two slashes and an
+unknown direction are SyntaxErrors (`none`) -/
+def parseParts (lower : Text → Text) : List Text → Option FieldSpec
+  | [k] => mkSpec lower k "cmp".toList "asc".toList
+  | [k, f] => mkSpec lower k f "asc".toList
+  | [k, f, d] => mkSpec lower k f d
+  | _ => none
+
+def parseOption (lower : Text → Text) (field : Text) : Option FieldSpec := parseParts lower (splitOn '/' field)
+
+/-- the options in order; the first SyntaxError ends it -/
+def parseOptions (lower : Text → Text) : List Text → Option (List FieldSpec)
+  | [] => some []
+  | o :: os =>
+    match parseOption lower o with
+    | none => none
+    | some f => (parseOptions lower os).map (f :: ·)
+
+/-- the whole attribute `sort="k1/f/d,k2,…"` -/
+def parseSpec (lower : Text → Text) (spec : Text) : Option (List FieldSpec) := parseOptions lower (splitOn ',' spec)
+
+/-- the comparison of the model an option stands for: a function from the namespace is the model's `rcmp`; the locale
+functions are outside the model -/
+def FuncRef.kind? : FuncRef → Option CmpKind
+  | .cmp => some .cmp
+  | .nocase => some .nocase
+  | .named _ => some .rcmp
+  | _ => none
+
+def FieldSpec.field? (s : FieldSpec) : Option Field := s.func.kind?.map fun k => ⟨k, s.desc⟩
+
 end DTML.Sort
